@@ -44,19 +44,35 @@ def r15_1(ctx):
             guards = _eq_guard(f, o, bb)
             ok = False
             why = "no guard"
+            eq_edge = None
             for sb, val, tree in guards:
                 t = tree
+                hit = False
                 if t.kind == "bin" and t.a in ("Eq", "Ne") and val == (t.a == "Eq"):
                     sides = [peel(k2) for k2 in t.kids]
                     has_skip = any(s.has_call("TestCaseConfig::get_skip_document_code") for s in sides)
                     has_code = any(any(n.kind == "variant" and n.a == "Code" for n in s.walk()) for s in sides)
                     if has_skip and has_code:
-                        ok, why = True, "code == get_skip_document_code()"
+                        ok, why, hit = True, "code == get_skip_document_code()", True
                 if t.kind == "call" and method_name(t.a) in ("PartialEq::eq",) and val:
                     sides = [peel(k2) for k2 in t.kids]
                     shown = " ".join(s.show() for s in sides)
                     if "get_skip_document_code" in shown and "ExitStatus::Code" in shown:
-                        ok, why = True, "exit_code == Code(skip_document_code)"
+                        ok, why, hit = True, "exit_code == Code(skip_document_code)", True
+                if hit:
+                    be_ = bool_edges(f, sb)
+                    eq_edge = (sb, be_[0] if val else be_[1])
+            if eq_edge is not None:
+                # sufficiency: once the exit code equals the skip code nothing else is consulted - every path from that edge constructs Skipped
+                # (no further condition such as the test case's own expected exit code can turn the skip into an ordinary result)
+                sb_, e_ = eq_edge
+                tails = {b_ for b_, h_ in f.back_edges()}
+                esc = set(f.reachable(e_, removed_blocks=[bb]))
+                leaks = sorted((esc & tails) | (esc & set(f.return_blocks())))
+                ctx.check(not leaks, "skip-unconditional:%s#%d" % (f.impl_self.split("::")[-1], k), f.loc(sb_),
+                          "an exit code equal to the skip code always skips the document (no further condition between the comparison and Err(Skipped))",
+                          "after `exit code == skip code` holds, the executor can still continue without reporting Skipped (blocks %s): a further condition "
+                          "decides whether the document is skipped" % leaks)
             # or: inside the ExitStatus::Skipped arm
             if not ok:
                 for sb, st in switches(f):
@@ -233,11 +249,14 @@ def r15_3(ctx):
         if v != "Skipped":
             others |= set(explore(run, tg, {pk: v}, removed_edges=back).keys())
     only = reg - others
+    from .c14 import counter_roles
+    roles = counter_roles(prog)
     incs = [(bb, nm) for bb, si, nm in _counter_incs(run) if bb in only]
     names = sorted(nm for _, nm in incs)
-    writes = sorted({nm for bb, si, nm in _counter_writes(run) if bb in only})
-    ctx.check(names == ["count_skipped"] and writes == ["count_skipped"], "skip-arm-counters", run.loc(sb), "the Skipped arm increments count_skipped once and writes no other counter",
-              "the Skipped arm increments %s and writes %s" % (names, writes))
+    writes = sorted({nm for bb, si, nm in _counter_writes(run, names=set(roles)) if bb in only})
+    ctx.check(len(names) == 1 and roles.get(names[0]) == "total_skipped" and writes == names, "skip-arm-counters", run.loc(sb),
+              "the Skipped arm increments the skipped counter (%s) once and writes no other counter" % (names[0] if names else "?"),
+              "the Skipped arm increments %s and writes %s (counter roles: %s)" % (names, writes, roles))
     # leaves through `continue`: reaches the loop back edge, constructs no error result
     reaches_back = any(b in reg for (b, s) in back)
     errs = [bb for bb, si, rvv in aggregates(run, "ValidationFailedError") if bb in only]
